@@ -59,14 +59,22 @@ def spec_clmul_mod(a, b):
 
 
 def gf_mul_const(y, c):
-    """y * c in GF(256) for a concrete c, as the GF(2)-linear map of the bits of y (columns = spec products of the unit bytes)"""
+    """y * c in GF(256) for a concrete c: shift-and-add over the bits of c with x-time steps (x * v = (v << 1) reduced by POLY).
+    Only xor / and / shift of y: a GF(2)-linear form that z3's bit-vector rewriter normalises (no ite, no table)"""
     if isinstance(y, int):
         return spec_clmul_mod(y, c)
     r = 0
+    x = y
     for i in range(8):
-        col = spec_clmul_mod(1 << i, c)
-        if col:
-            r = r ^ s_ite(((y >> i) & 1) == 1, col, 0)
+        if (c >> i) & 1:
+            r = r ^ x
+        if (c >> (i + 1)) == 0:
+            break
+        hi = (x >> 7) & 1
+        x = ((x << 1) & 0xFF)
+        for j in range(8):
+            if (POLY >> j) & 1:
+                x = x ^ (hi << j)
     return r
 
 
@@ -281,6 +289,8 @@ def mods():
         _STATE["real_slip39"] = sh.SLIP39
         _STATE["real_polymod"] = sh.rs1024_polymod
         _STATE["real_interpolate"] = S.__dict__["interpolate"]
+        _STATE["real_recover_secret"] = S.__dict__["recover_secret"]
+        _STATE["real_decrypt"] = S.__dict__["decrypt"]
         nat = loader.native("shamir")
         rng = _random.Random(15)
         for _ in range(60):
@@ -528,3 +538,157 @@ def replay_split_recover(w):
         if rec != secret:
             return {"violated": True, "observed": f"recover_secret(shares {list(sub)}) = {rec.hex()} != {secret.hex()}"}
     return {"violated": False, "observed": "agrees"}
+
+
+# =============================================================================================== O3 refusal below threshold / mixing
+
+FIELDS = (("id", 0, (1 << 15) - 1), ("exponent", 0, 31), ("gi", 0, 15), ("gt", 1, 16), ("gc", 1, 16), ("mi", 0, 15), ("mt", 1, 16))
+
+
+def spec_consistent(shares):
+    """what a set of shares must satisfy before anything may be returned (structural part of SLIP39 RecoverSecret).
+    shares: dicts of the header fields + 'bits' (proxies or ints).  Returns bool / SB."""
+    m = len(shares)
+    if m == 0:
+        return False
+    f0 = shares[0]
+    conds = []
+    for s in shares[1:]:
+        if s["bits"] != f0["bits"]:
+            return False
+        conds += [s["id"] == f0["id"], s["exponent"] == f0["exponent"], s["gt"] == f0["gt"], s["gc"] == f0["gc"]]
+    for a in range(m):
+        for b in range(a + 1, m):
+            conds.append(s_not(s_and(shares[a]["gi"] == shares[b]["gi"], shares[a]["mi"] == shares[b]["mi"])))
+    conds.append(f0["gt"] <= f0["gc"])
+    # groups present: count the distinct group indices; inside a group: one member threshold, enough members
+    distinct = 0
+    for a in range(m):
+        first = s_and(*[s_not(shares[b]["gi"] == shares[a]["gi"]) for b in range(a)]) if a else True
+        distinct = distinct + s_ite(first, 1, 0)
+        members = 0
+        for b in range(m):
+            same = shares[b]["gi"] == shares[a]["gi"]
+            members = members + s_ite(same, 1, 0)
+            conds.append(s_implies(same, shares[b]["mt"] == shares[a]["mt"]))
+        conds.append(members >= shares[a]["mt"])
+    conds.append(distinct >= f0["gt"])
+    return s_and(*conds)
+
+
+def _o3_path(shape):
+    """shape: tuple of (group index or None = symbolic, bits) per share"""
+    sh, S = mods()
+    GF_REWRITE[0] = True
+    fields = []
+    objs = []
+    for j, (gi, bits) in enumerate(shape):
+        f = {"bits": bits}
+        for name, lo, hi in FIELDS:
+            f[name] = gi if (name == "gi" and gi is not None) else SI.var(f"{name}{j}", lo, hi)
+        f["value"] = SBytes.sym(f"v{j}", bits // 8)
+        fields.append(f)
+
+    def wit(env):
+        out = []
+        for j, f in enumerate(fields):
+            d = {k: (f[k] if isinstance(f[k], int) else env[f"{k}{j}"]) for k in ("id", "exponent", "gi", "gt", "gc", "mi", "mt")}
+            d["bits"] = f["bits"]
+            d["value"] = bytes_env(env, f"v{j}", f["bits"] // 8).hex()
+            out.append(d)
+        return {"shares": out}
+    try:
+        for f in fields:
+            objs.append(sh.Share(f["bits"], f["id"], f["exponent"], f["gi"], f["gt"], f["gc"], f["mi"], f["mt"],
+                                 core.int_from_bytes(f["value"], "big")))
+    except ValueError:
+        check(True, "share refused at construction")
+        return "share-invalid"
+    # seams: recover_secret (O2's subject) hands back an arbitrary secret of the share length, i.e. the digest check is taken to
+    # pass whenever it is reached; decrypt (O5's subject) is the identity.  What is decided here is the control flow around them.
+    calls = []
+
+    def rec_stub(cls, share_data):
+        calls.append(share_data)
+        return SBytes.sym(f"rec{len(calls)}", len(share_data[0][1]))
+    S.recover_secret = classmethod(rec_stub)
+    S.decrypt = lambda self, secret, passphrase=b"": secret
+    try:
+        ss = S(list(objs))
+        r = ss.recover(b"")
+    except Exception as ex:
+        check(True, "refused")
+        return "refused:" + type(ex).__name__
+    finally:
+        S.recover_secret = _STATE["real_recover_secret"]
+        S.decrypt = _STATE["real_decrypt"]
+    check(r is not None and len(r) == fields[0]["bits"] // 8, "recover returned something that is not a secret of the share length", witness=wit)
+    check(spec_consistent(fields), "recover returned a secret for shares that are inconsistent (different split / parameters / length), "
+                                   "duplicated or fewer than the thresholds", witness=wit)
+    return "returned"
+
+
+def ob_refusal(shape):
+    exp = ["returned"] if len(shape) else []
+    r = sym_run(lambda: _o3_path(shape), expect_classes=exp, timeout_ms=60000, max_violations=24, max_paths=60000)
+    r["sample"] = {"shares": len(shape), "group indices": [("symbolic" if g is None else g) for g, _ in shape], "bits": [b for _, b in shape],
+                   "symbolic": "id, exponent, group threshold/count, member index/threshold, value of every share"}
+    return r
+
+
+def _native_share(d, value=None):
+    from buidl.shamir import Share
+    v = int(d["value"], 16) if value is None else int.from_bytes(value, "big")
+    return Share(d["bits"], d["id"], d["exponent"], d["gi"], d["gt"], d["gc"], d["mi"], d["mt"], v)
+
+
+def _repaired_values(ds):
+    """share values that pass the digest checks where the header fields allow it (two-level split of a fixed secret with the
+    native split_secret), so that a structural acceptance is not masked by a digest mismatch of the solver's arbitrary bytes"""
+    from buidl.shamir import ShareSet
+    nb = ds[0]["bits"] // 8
+    secret = bytes(range(1, nb + 1))
+    gt, gc = ds[0]["gt"], ds[0]["gc"]
+    try:
+        groups = dict(ShareSet.split_secret(secret, gt, gc)) if gt > 1 else {g: secret for g in range(16)}
+    except Exception:
+        groups = {}
+    out = []
+    cache = {}
+    for d in ds:
+        gs = groups.get(d["gi"], secret)
+        if d["mt"] == 1:
+            out.append(gs)
+            continue
+        key = (d["gi"], d["mt"])
+        if key not in cache:
+            try:
+                cache[key] = dict(ShareSet.split_secret(gs, d["mt"], 16))
+            except Exception:
+                cache[key] = {}
+        out.append(cache[key].get(d["mi"], gs))
+    return out
+
+
+def replay_refusal(w):
+    from buidl.shamir import ShareSet
+    ds = w["shares"]
+    ok = bool(spec_consistent(ds))
+    last = None
+    for values in (None, "repaired"):
+        try:
+            vals = _repaired_values(ds) if values else [None] * len(ds)
+            objs = [_native_share(d, v) for d, v in zip(ds, vals)]
+        except Exception as ex:
+            last = f"Share() raised {ex!r}"
+            continue
+        try:
+            r = ShareSet(objs).recover(b"")
+        except Exception as ex:
+            last = f"refused: {ex!r}"
+            continue
+        hdr = [{k: d[k] for k in ("id", "exponent", "gi", "gt", "gc", "mi", "mt", "bits")} for d in ds]
+        if not ok:
+            return {"violated": True, "observed": f"ShareSet(shares).recover() returned {r.hex()} for the inconsistent / insufficient shares {hdr}"}
+        last = f"returned {r.hex()} (consistent set)"
+    return {"violated": False, "observed": last}
